@@ -46,7 +46,7 @@ def requests(values, idents):
                      "ms": [{"n": "__name__", "op": "=", "v": "up"}, {"n": name, "op": op, "v": val}]}, pos, v))
 
     def prof(pos, op, name, val, cluster, v):
-        q = 'process_cpu:cpu:nanoseconds:cpu:nanoseconds{service_name="svc", %s%s%s}' % (name, op, go_quote(val))
+        q = '{service_name="svc", %s%s%s}' % (name, op, go_quote(val))
         out.append(({"kind": "prof", "class": ["c10"], "ctx": ctx(cluster), "query": q}, pos, v))
     k = 0
     for v in [MARKER] + values:
@@ -68,8 +68,8 @@ def requests(values, idents):
     return out
 
 
-def run(ck, sq_cases, tag):
-    vals, idents = [], []
+def run(ck, sq_cases, tag, values=None):
+    vals, idents = list(values or []), list(values or [])
     seen = set()
     for c in sq_cases:
         if not any(c["site"].startswith(p) for p in ("promql.", "prof.", "labels.")):
@@ -170,6 +170,9 @@ def run(ck, sq_cases, tag):
             if exp != r[3]:
                 notsubst.append(i)
     show = lambda i: "%s %s" % (reqs[i][1], json.dumps(reqs[i][2])[:80])
+    if values is None:
+        empty = sorted(set(pos for _, pos, _ in reqs) - set(by_pos))
+        ck.obligation("PromQL/Pyroscope selection (%s): every position has planned statements" % tag, not empty, "none for: %s" % empty)
     ck.obligation("PromQL/Pyroscope selection tree-level correspondence (%s): flat(pieces(model plan)) = SQL of the real planners, byte for byte, on %d statements"
                   % (tag, len(sqls)), not mism, "; ".join(show(i) for i in mism[:3]))
     ck.obligation("every PromQL/Pyroscope selection tree passes pok (%s): promql_selection_/profile_selection_values_keep_statement_structure apply (%d trees)"
